@@ -74,6 +74,8 @@ type Contract struct {
 	Ghosts    []GhostStmt
 	Thread    bool
 	GhostTags []string
+	Probes    []ProbeDef
+	Replay    string // name of the replay driver under /verif/replay for obligations of this function
 	Asserts   []*SiteAssert
 	ifaceRecv string
 	ifacePkg  *Contract
@@ -95,6 +97,16 @@ type GhostStmt struct {
 	Target  ast.Expr
 	Value   ast.Expr
 	Src     string
+}
+
+// ProbeDef names an entry-state expression whose model value is extracted when an obligation of the function fails
+// (input to the replay driver). With IndexVar set it expands to N probes name_0 .. name_{N-1}.
+type ProbeDef struct {
+	Name     string
+	IndexVar string
+	N        int
+	Expr     ast.Expr
+	Src      string
 }
 
 type LetDef struct {
@@ -372,6 +384,22 @@ func (s *Specs) loadSpecFile(w *World, path string, pkg *packages.Package, trust
 			cur.Thread = true
 		case "ghost-tags":
 			cur.GhostTags = append(cur.GhostTags, strings.Fields(rest)...)
+		case "replay":
+			cur.Replay = rest
+		case "probe":
+			m := regexp.MustCompile(`^(\w+)(?:\[(\w+)<(\d+)\])?\s*=\s*(.+)$`).FindStringSubmatch(rest)
+			if m == nil {
+				return fail(l, "probe name[k<N] = expr")
+			}
+			e, err := parseExprAt(m[4], path, l.line)
+			if err != nil {
+				return err
+			}
+			pd := ProbeDef{Name: m[1], IndexVar: m[2], Expr: e, Src: rest}
+			if m[3] != "" {
+				pd.N, _ = strconv.Atoi(m[3])
+			}
+			cur.Probes = append(cur.Probes, pd)
 		case "implements":
 			cur.Implement = rest
 		case "receiver":
